@@ -47,9 +47,10 @@ class Runner:
     def __init__(self, ctx, flavour='hk-shm'):
         self.ctx = ctx
         self.b = ctx.build(flavour)            # builds library + ptgpp from /repo's working tree
-        self.work = os.path.join(VERIF, 'out', 'ptg', ctx.pid)
+        # private work directory per check run (concurrent runs of the same check, e.g. inside a mutcheck view, must not collide)
+        self.work = os.path.join(VERIF, 'out', 'ptg', '%s.%d' % (ctx.pid, os.getpid()))
         shutil.rmtree(self.work, ignore_errors=True)
-        os.makedirs(self.work)
+        os.makedirs(self.work, exist_ok=True)
         os.makedirs(os.path.join(VERIF, 'out', 'replay'), exist_ok=True)
         b = self.b
         self.inc = ['-I%s/parsec/include' % b, '-I%s' % b, '-I%s/parsec/include' % REPO, '-I%s' % REPO, '-I%s/parsec' % REPO, '-I' + RT, '-I.']
@@ -106,11 +107,14 @@ class Runner:
             reg = os.path.join(self.work, 'registry_%s.c' % be)
             open(reg, 'w').write('#include "ptg_exp.h"\n' + ''.join('extern const ptg_program_t ptg_program_%s;\n' % n for n in names) +
                                  'const ptg_program_t *ptg_programs[] = { %s NULL };\n' % ''.join('&ptg_program_%s, ' % n for n in names))
-            exe = os.path.join(VERIF, 'out', 'bin', '%s-ptg-%s' % (self.ctx.pid, be))
+            exe = os.path.join(self.work, '%s-ptg-%s' % (self.ctx.pid, be))
             self._sh(['gcc'] + self.cf + self.inc + [reg] + [o for _, o in objs[be]] + [drv, '-o', exe] + self.ld, self.work, 'link')
             exes[be] = exe
         self.exes = exes
         return exes
+
+    def cleanup(self):
+        shutil.rmtree(self.work, ignore_errors=True)
 
     # ------------------------------------------------------------------ running
     def run_jobs(self, jobs, leg, stop_on_violation=True):
@@ -256,4 +260,5 @@ def replay(ctx, path, obj, family):
     R = Runner(ctx)
     exe = R.build_all(progs, backends=(obj['backend'],))[obj['backend']]
     r = subprocess.run([exe, '--replay', path, '--outdir', os.path.join(VERIF, 'out'), '--limit', str(4 * R.hang_limit), '-v'])
+    R.cleanup()
     return r.returncode if r.returncode in (0, 1) else 2
